@@ -145,9 +145,15 @@ def run(job, mon):
         # joint coordinates reported by spring / positional are not the
         # inverse image of the pose (known finding K2 of C08), so "inside
         # the range" cannot be read off them and the guard rejects the case
-        spec = gen.gen_model(rng, strength='gentle', limit_prob=0.6,
-                             max_links=4, ortho=idx % 3 != 0,
-                             stack_kinds='invertible' if idx % 3 else 'any')
+        if idx % 4 == 3:
+          # three-hinge stacks of either handedness, ranges on every axis
+          spec = gen.gen_model(rng, strength='gentle', limit_prob=0.9,
+                               n_links=int(rng.integers(1, 4)), ortho=True,
+                               stack_kinds='hinge', min_stack=3)
+        else:
+          spec = gen.gen_model(rng, strength='gentle', limit_prob=0.6,
+                               max_links=4, ortho=idx % 3 != 0,
+                               stack_kinds='invertible' if idx % 3 else 'any')
         if any('range' in j for b in spec['bodies'] for j in b['joints']):
           break
       xa, xb = gen.to_xml(spec), gen.to_xml(spec, strip_limits=True)
